@@ -241,7 +241,10 @@ class Nodes:
                     source_node, value, new_format, **kwargs)
 
         if new_node is None:
-            if hasattr(source_node, "anchor") and source_node.anchor.value:
+            if new_type is type(None):
+                # A null cannot carry an anchor
+                new_node = None
+            elif hasattr(source_node, "anchor") and source_node.anchor.value:
                 new_node = new_type(new_value, anchor=source_node.anchor.value)
             elif new_type is not type(None):
                 new_node = new_type(new_value)
